@@ -477,7 +477,7 @@ def run(ctx):
                 depth=r['depth_done'], states=r['states'],
                 transitions=r['transitions'], fixpoint=r['fixpoint'],
                 new_states_per_depth=r['per_level'])
-            if ctx.viol and not ctx.opts.get('keep_going'):
+            if ctx.unknown_viol() and not ctx.opts.get('keep_going'):
                 break
             if not extra:
                 continue
@@ -493,7 +493,7 @@ def run(ctx):
             if r['frontier']:
                 ctx.sample(dict(impl=impl, world=world,
                                 history=r['frontier'][len(r['frontier']) // 2]))
-        if ctx.viol and not ctx.opts.get('keep_going'):
+        if ctx.unknown_viol() and not ctx.opts.get('keep_going'):
             break
     ctx.count['traces_validated_against_impl'] = ctx.count['transitions']
     ctx.assumptions += [
